@@ -569,7 +569,7 @@ func (t *Term) String() string {
 func smtName(n string) string {
 	simple := true
 	for _, c := range n {
-		if !(c >= 'a' && c <= 'z' || c >= 'A' && c <= 'Z' || c >= '0' && c <= '9' || c == '_' || c == '.' || c == '!' || c == '@' || c == '#' || c == '$') {
+		if !(c >= 'a' && c <= 'z' || c >= 'A' && c <= 'Z' || c >= '0' && c <= '9' || c == '_' || c == '.' || c == '!' || c == '@' || c == '$') {
 			simple = false
 			break
 		}
@@ -652,10 +652,17 @@ func boundVarsOf(roots []*Term) map[string]bool {
 }
 
 // EmitSMT renders an obligation: hyps and the negated goal, sharing subterms through define-fun.
-func EmitSMT(hyps []*Term, goal *Term, logicHint string, cover bool) string {
+func EmitSMT(hyps []*Term, goal *Term, logicHint string, cover bool, watch ...[]WatchTerm) string {
 	roots := append([]*Term{}, hyps...)
 	if goal != nil {
 		roots = append(roots, goal)
+	}
+	var ws []WatchTerm
+	if len(watch) > 0 {
+		ws = watch[0]
+	}
+	for _, w := range ws {
+		roots = append(roots, w.T)
 	}
 	all := collect(roots)
 	bv := boundVarsOf(roots)
@@ -725,5 +732,18 @@ func EmitSMT(hyps []*Term, goal *Term, logicHint string, cover bool) string {
 		sb.WriteString("))\n")
 	}
 	sb.WriteString("(check-sat)\n")
+	if len(ws) > 0 {
+		sb.WriteString("(get-value (")
+		for _, w := range ws {
+			w.T.write(&sb, defs)
+			sb.WriteByte(' ')
+		}
+		sb.WriteString("))\n")
+	}
 	return sb.String()
+}
+
+type WatchTerm struct {
+	Name string
+	T    *Term
 }
